@@ -18,6 +18,7 @@ import (
 	"runtime"
 	"strings"
 	"sync"
+	"time"
 
 	"github.com/magisterquis/curlrevshell/lib/opshell"
 	"github.com/magisterquis/curlrevshell/verifx/ev"
@@ -28,8 +29,9 @@ import (
 func c03PrefixStress(r *ev.Result, rounds int) {
 	n, bad := 0, 0
 	sl := slog.New(slog.NewTextHandler(io.Discard, nil))
-	for round := 0; round < rounds && 0 == bad; round++ {
-		for cancelAfter := 0; cancelAfter < 6 && 0 == bad; cancelAfter++ {
+	stop := false
+	for round := 0; round < rounds && 0 == bad && !stop; round++ {
+		for cancelAfter := 0; cancelAfter < 6 && 0 == bad && !stop; cancelAfter++ {
 			ich := make(chan string, 4)
 			och := make(chan opshell.CLine) /* A terminal that takes one item at a time. */
 			b, err := hworld.NewBroker(ich, och)
@@ -62,8 +64,11 @@ func c03PrefixStress(r *ev.Result, rounds int) {
 				for cl := range och {
 					if cl.Plain {
 						shown = append(shown, cl.Line)
-						taken++
-						if taken == cancelAfter+1 {
+						/* (Counted in bytes: the broker may hand over
+						several reads as one item.) */
+						before := taken
+						taken += len(cl.Line)
+						if at := 5 * (cancelAfter + 1); before < at && taken >= at {
 							/* Busy with this chunk (writing it to
 							the terminal) while the stream is cancelled:
 							the next one is being offered meanwhile. */
@@ -78,7 +83,25 @@ func c03PrefixStress(r *ev.Result, rounds int) {
 					}
 				}
 			}()
-			<-done
+			select {
+			case <-done:
+			case <-time.After(hworld.Watchdog):
+				/* The cancellation point was never reached (or the call
+				does not return): end everything and judge what was shown. */
+				r.Inc("prefix_sessions_ended_by_the_watchdog", 1)
+				stop = true /* No point in waiting 30 s again and again. */
+				scancel()
+				cancel()
+				pr.Close()
+				select {
+				case <-done:
+				case <-time.After(hworld.Watchdog):
+					r.Violate(ev.Violation{Signature: "free-running/connect-never-returns", Kind: "c03stress", Replay: map[string]int{"round": round, "cancel_after_chunks": cancelAfter + 1},
+						What: fmt.Sprintf("real broker, unbuffered operator channel: ConnectOut has not returned %v after its context was cancelled and its reader closed", hworld.Watchdog)})
+					r.Add(n)
+					return
+				}
+			}
 			pr.Close()
 			pw.Close()
 			cancel()
